@@ -704,6 +704,14 @@ func (dht *IpfsDHT) peerFound(p peer.ID) {
 				return
 			}
 
+			// The peer may have stopped advertising the DHT protocol (or started
+			// failing the routing table filter) while it was being probed. The
+			// notification of that was ignored, as the peer wasn't in the routing
+			// table yet, so check again before admitting it.
+			if b, err := dht.validRTPeer(p); err != nil || !b {
+				return
+			}
+
 			// if the FIND_NODE succeeded, the peer is considered as valid
 			dht.validPeerFound(p)
 		}()
